@@ -10,7 +10,7 @@ import sys
 from abc import ABCMeta, abstractmethod
 from contextlib import contextmanager
 from types import CodeType, FrameType
-from typing import Any, Callable, Dict, Iterator, Optional, Union, cast
+from typing import Any, Callable, Dict, Iterator, Optional, Tuple, Union, cast
 
 import opcode
 
@@ -216,15 +216,19 @@ class CallTracer:
         self.logger = logger
         self.traces: Dict[FrameType, CallTrace] = {}
         self.sample_rate = sample_rate
-        self.cache: Dict[CodeType, Optional[Callable[..., Any]]] = {}
+        self.cache: Dict[Tuple[str, CodeType], Optional[Callable[..., Any]]] = {}
         self.should_trace = code_filter
         self.max_typed_dict_size = max_typed_dict_size
 
     def _get_func(self, frame: FrameType) -> Optional[Callable[..., Any]]:
         code = frame.f_code
-        if code not in self.cache:
-            self.cache[code] = get_func(frame)
-        return self.cache[code]
+        # Code objects compare (and hash) equal whenever their contents are
+        # identical, whatever file they come from: key on the file name as well,
+        # or a copy of a function in another file is attributed to the first one.
+        key = (code.co_filename, code)
+        if key not in self.cache:
+            self.cache[key] = get_func(frame)
+        return self.cache[key]
 
     def handle_call(self, frame: FrameType) -> None:
         if self.sample_rate and random.randrange(self.sample_rate) != 0:
